@@ -33,7 +33,19 @@ def tree_hash() -> str:
     return _CACHE[k]
 
 
+def cache_root() -> Path:
+    """Memo directory of THIS invocation.  mc.cli creates a fresh one per ./check run (and
+    removes it afterwards), so nothing a run reports was computed by an earlier run: worker
+    processes of one run share results through it, different runs share nothing.
+    VERIF_CACHE_ROOT may name a persistent directory while developing a check; evidence
+    written that way is marked `reused_cache`."""
+    root = os.environ.get("VERIF_CACHE_ROOT")
+    if not root:
+        raise RuntimeError("VERIF_CACHE_ROOT is not set (mc.cli sets it per run)")
+    return Path(root)
+
+
 def cache_dir(kind: str) -> Path:
-    d = Path(__file__).resolve().parent.parent / ".cache" / tree_hash() / kind
+    d = cache_root() / tree_hash() / kind
     d.mkdir(parents=True, exist_ok=True)
     return d
